@@ -58,7 +58,8 @@ theorem sim_sl_step {cfg : Cfg} {d d' : RState} {m : Mon} {o : Obs} (hs : SimSL 
         · have := (ha.1 hv).1
           have hv' : (r.verb == Verb.post) = false := by simp [hv]
           simp [hv', this]
-    · unfold chkLog
+    · rw [chkLogOp_eq ho.notBody]
+      unfold chkLog
       cases hr : op.req with
       | none => simp [ho.nolog hr]
       | some r =>
@@ -87,6 +88,7 @@ theorem sim_sl_step {cfg : Cfg} {d d' : RState} {m : Mon} {o : Obs} (hs : SimSL 
       simp [this]
     · unfold chkNoId
       cases op.req <;> simp [hs.stateless]
+    · rw [ho.map, ho.stale]; rfl
   · obtain ⟨e1, e2, e3, e4, e5, e6, e7⟩ := monStep_mon cfg m op o
     have hcfg' : d'.st.cfg = cfg := by rw [ho.cfg]; exact hs.cfg_eq
     refine ⟨hcfg', ?_, hs.stateless, ?_, ?_, ?_, ?_⟩
